@@ -101,9 +101,24 @@ fn pnm_totality(bytes: &[u8], r: &mut Report, kind: &str) {
 
 const HOSTILE: [u8; 9] = [0x00, b'\t', b'\n', b'\r', b' ', b'#', b'0', b'9', 0xFF];
 
+/// A sink that accepts at most `chunk` bytes per write() call (allowed by the Write contract).
+struct Chunky { data: Vec<u8>, chunk: usize }
+impl std::io::Write for Chunky {
+    fn write(&mut self, b: &[u8]) -> std::io::Result<usize> { let n = b.len().min(self.chunk); self.data.extend_from_slice(&b[..n]); Ok(n) }
+    fn flush(&mut self) -> std::io::Result<()> { Ok(()) }
+}
+
 fn pnm_roundtrip_view(view: Slice2<Color3>, expect: &Img, r: &mut Report, tag: &str, case: J) {
     r.eval();
     let mut out = vec![];
+    // the same bytes must arrive through a sink that takes only a few bytes per call
+    let mut chunky = Chunky { data: vec![], chunk: 5 };
+    if let Ok(Ok(())) = caught(|| write_ppm(&mut chunky, view)) {
+        let mut whole = vec![];
+        if let Ok(Ok(())) = caught(|| write_ppm(&mut whole, view)) {
+            if whole != chunky.data { r.violation(format!("ppm-partial-write|{tag}"), format!("write_ppm lost data on a sink that accepts 5 bytes per write(): {} of {} bytes arrived", chunky.data.len(), whole.len()), case.clone()); return; }
+        }
+    }
     match caught(|| write_ppm(&mut out, view)) {
         Err(p) => { r.violation(format!("ppm-write-panic|{tag}"), format!("write_ppm panicked: {p}"), case); return; }
         Ok(Err(e)) => { r.violation(format!("ppm-write-error|{tag}"), format!("write_ppm error: {e}"), case); return; }
@@ -270,6 +285,20 @@ fn run_pnm(cfg: &Cfg) -> ! {
         });
         rep.merge(r);
     }}
+    // scale sentinels: images with extents beyond 255 (and a long single row), hostile bytes throughout
+    for (w, h) in [(300u32, 2u32), (2, 300), (257, 1), (1, 1000), (70, 70)] {
+        let px: Vec<[u8; 3]> = (0..(w * h) as usize).map(|k| [HOSTILE[k % 9], HOSTILE[(k / 9 + 1) % 9], (k * 7 % 256) as u8]).collect();
+        pnm_roundtrip_owned(w, h, &px, &mut rep);
+        // the same data as P3 text and P6 binary must decode alike
+        let mut txt = format!("P3\n{w} {h}\n255\n").into_bytes();
+        let mut bin = format!("P6 {w} {h} 255\n").into_bytes();
+        for p in &px { for c in p { txt.extend_from_slice(format!("{c} ").as_bytes()); } txt.push(b'\n'); bin.extend_from_slice(p); }
+        rep.eval();
+        match (decode_both(&txt), decode_both(&bin)) {
+            (Ok((a, _)), Ok((b, _))) if a == b && a == Ok((w, h, px.clone())) => rep.nontrivial(),
+            (a, b) => rep.violation(format!("pnm-text-binary|large|{w}x{h}"), format!("large {w}x{h} image: text decode {:?}, binary decode {:?}", a.map(|x| x.0.map(|i| (i.0, i.1, i.2.len()))), b.map(|x| x.0.map(|i| (i.0, i.1, i.2.len())))), obj! {"kind" => "pnm-rt-owned", "w" => w, "h" => h, "px" => hex(&px.concat())}),
+        }
+    }
     // sub-views (strided), nested
     let mut r = Report::new();
     pnm_roundtrip_subviews(&mut r, true, None);
@@ -366,8 +395,8 @@ fn obj_totality(bytes: &[u8], r: &mut Report, kind: &str) {
     }
 }
 
-const COORDS: [(&str, f32); 8] = [("0", 0.0), ("1", 1.0), ("-2.5", -2.5), ("1e3", 1000.0), ("-1.0e0", -1.0), ("+.5", 0.5), ("0.03", 0.03), ("1.23e-2", 0.0123)];
-const DECOR: [&str; 8] = ["", "  ", "\t", "trail", "blank", "comment", "icomment", "cr"];
+const COORDS: [(&str, f32); 11] = [("0", 0.0), ("1", 1.0), ("-2.5", -2.5), ("1e3", 1000.0), ("-1.0e0", -1.0), ("+.5", 0.5), ("0.03", 0.03), ("1.23e-2", 0.0123), ("1.5E3", 1500.0), ("2E+1", 20.0), ("-4.E-1", -0.4)];
+const DECOR: [&str; 10] = ["", "  ", "\t", "trail", "blank", "comment", "icomment", "cr", "longcomment", "deepindent"];
 
 /// One grammar-generated file. idx encodes (V, faces, form, layout, decoration, line ending, final newline).
 fn obj_grammar(idx: u64, r: &mut Report, maxv: usize, maxf: usize) {
@@ -383,8 +412,10 @@ fn obj_grammar(idx: u64, r: &mut Report, maxv: usize, maxf: usize) {
     let dec = take(DECOR.len() as u64) as usize;
     let crlf = take(2) == 1;
     let final_nl = take(2) == 1;
-    let coord_rot = take(8) as usize;
+    let coord_rot = take(COORDS.len() as u64) as usize;
     if i != 0 { return; } // out of family
+    // the two scale decorations (3000-character lines) only with the plainest remaining choices
+    if dec >= 8 && (coord_rot != 0 || crlf || !final_nl || nf > 1) { return; }
     r.eval();
     let eol = if crlf { "\r\n" } else { "\n" };
     let mut vlines = vec![];
@@ -422,6 +453,9 @@ fn obj_grammar(idx: u64, r: &mut Report, maxv: usize, maxf: usize) {
             "comment" => { text.push_str("# v 9 9 9"); text.push_str(eol); text.push_str(l); }
             "icomment" => { text.push_str("   #f 1 1 1"); text.push_str(eol); text.push_str(l); }
             "cr" => { text.push_str(l); text.push('\r'); }
+            // scale: a 3000-character comment line ending in something that looks like a vertex, and 2000 blanks of indentation
+            "longcomment" => { text.push('#'); for _ in 0..1500 { text.push_str("x "); } text.push_str(" v 7 7 7"); text.push_str(eol); text.push_str(l); }
+            "deepindent" => { for _ in 0..2000 { text.push(' '); } text.push_str(l); }
             ws => { text.push_str(ws); text.push_str(l); }
         }
         if k + 1 < lines.len() || final_nl { text.push_str(eol); }
@@ -446,9 +480,26 @@ fn run_obj(cfg: &Cfg) -> ! {
     let mut rep = Report::new();
     let (maxv, maxf) = if quick { (3usize, 2usize) } else { (4, 2) };
     // upper bound on idx space (mixed radix with the largest radices); out-of-family indices return early
-    let space = (maxv as u64 + 1) * (maxf as u64 + 1) * ((maxv * maxv * maxv) as u64).pow(maxf as u32) * 4 * 4 * DECOR.len() as u64 * 2 * 2 * 8;
+    let space = (maxv as u64 + 1) * (maxf as u64 + 1) * ((maxv * maxv * maxv) as u64).pow(maxf as u32) * 4 * 4 * DECOR.len() as u64 * 2 * 2 * COORDS.len() as u64;
     rep.merge(par_range(cfg, space, |i, r| obj_grammar(i, r, maxv, maxf)));
     rep.set("grammar_index_space", space);
+    // scale sentinels: meshes with hundreds / tens of thousands of vertices (indices beyond 255 and 65535), all index forms
+    for (nv, form) in [(300usize, 0usize), (300, 3), (70000, 0), (70000, 2)] {
+        let mut text = String::new();
+        let mut faces = vec![];
+        let fmt = |v: usize| match form { 0 => format!("{v}"), 2 => format!("{v}//{v}"), _ => format!("{v}/{v}/{v}") };
+        // faces first for one half, after the vertices for the other
+        let tri = |k: usize| [k % nv, (k * 7 + nv - 1) % nv, (k * 13 + 255) % nv];
+        for k in 0..150 { let t = tri(k); faces.push(t); text.push_str(&format!("f {} {} {}\n", fmt(t[0] + 1), fmt(t[1] + 1), fmt(t[2] + 1))); }
+        for k in 0..nv { text.push_str(&format!("v {k} {} 0.5\n", k % 7)); if form >= 2 { text.push_str("vn 0 1 0\n"); } if form == 3 { text.push_str("vt 0.5 0.5\n"); } }
+        for k in [nv - 1, 255, 256, 65535 % nv, 65536 % nv] { let t = [k, 0, nv - 1]; faces.push(t); text.push_str(&format!("f {} {} {}\n", fmt(t[0] + 1), fmt(t[1] + 1), fmt(t[2] + 1))); }
+        rep.eval();
+        let expect: ObjMesh = ((0..nv).map(|k| [(k as f32).to_bits(), ((k % 7) as f32).to_bits(), 0.5f32.to_bits()]).collect(), faces);
+        match obj_decode(text.as_bytes()) {
+            Ok((Ok(m), _)) if m == expect => rep.nontrivial(),
+            other => rep.violation(format!("obj-wellformed|large|nv={nv}|form{form}"), format!("large well-formed mesh ({nv} vertices, form {form}) decoded to {:?}", other.map(|(a, _)| a.map(|m| (m.0.len(), m.1.len())))), obj! {"kind" => "obj-total", "bytes" => hex(&text.as_bytes()[..2000.min(text.len())])}),
+        }
+    }
     let alpha = [b'v', b'f', b'n', b't', b' ', b'\n', b'#', b'/', b'0', b'1', b'2', b'-', b'.', b'e', b'\r', 0xC3];
     rep.merge(all_strings(cfg, &alpha, if quick { 5 } else { 6 }, |s, r| obj_totality(s, r, "strings")));
     // face lines with hostile index tokens in every position, with 0..3 vertices defined, before and after
